@@ -124,6 +124,27 @@ def _f5(cex):
     return cex.get("kind") == "wcet_extrapolate_zero"
 
 
+@matcher("k2_ecrts19_pruning_lossy")
+def _k2(cex):
+    return cex.get("kind") == "ros_not_naive" and cex.get("pruned_below_all_offsets") is True and cex.get("limit", 1) >= 1
+
+
+@matcher("k4_ros_limit_zero")
+def _k4r(cex):
+    return cex.get("kind") == "ros_not_naive" and cex.get("limit") == 0
+
+
+def _rreason(label):
+    def m(cex):
+        return cex.get("kind") == "ros_not_naive" and label in cex.get("reasons", []) and cex.get("limit", 1) >= 1
+    return m
+
+
+MATCHERS["k1_ros"] = _rreason("K1")
+MATCHERS["f3_ros"] = _rreason("F3")
+MATCHERS["never_ros"] = _rreason("NEVER")
+
+
 def classify(pid, cexs):
     """returns (known, new): known = list of (finding, first matching cex) (one per
     finding), new = list of counterexamples no known finding accepts."""
